@@ -4,7 +4,7 @@
    conclusion is inhabited. *)
 From Ucanto Require Import Base Varint Ipld Cbor Formats Blockstore MessageFormat Cid Car BaseEnc DagJson Signing.
 From Ucanto Require Import MessageBytes TokenBytes.
-From Ucanto Require Import Pattern Time Validator ValidatorSpec ValidatorTerm Check_Validator Server ServerTotal TokenView TokenViewExample ServerBytes.
+From Ucanto Require Import Pattern Time Validator ValidatorSpec ValidatorTerm Check_Validator Server ServerTotal TokenView TokenViewExample LinkIntegrity ServerBytes.
 Open Scope N_scope.
 
 (* a toy digest with byte values (any function will do: the theorems quantify over it) *)
@@ -72,14 +72,75 @@ Example y_chain :
   exists d, decode_message y_digest (fun _ => None) y_body = Some d /\
   exists cid data ut h a,
     In cid (invocations_bytes (d_msg d)) /\ tbl_get (d_store d) cid = Some data /\
-    token_decode_typed data = Some ut /\
-    P (U_of [] (view_block lid x_keys x_valid x_alg) (blocks_of d)) x_ctx 8 (h_desc h)
+    cid_of y_digest data = Some cid /\ token_decode_typed data = Some ut /\
+    P (U_of y_digest [] (view_block lid x_keys x_valid x_alg) (blocks_of d)) x_ctx 8 (h_desc h)
       [mkDlg (lid cid) (vis_of (blocks_of d))] a.
 Proof.
   destruct y_served as [rep H].
   destruct (serve_bytes_calls_have_valid_chains y_digest (fun _ => None) x_keys x_valid x_alg 8 y_srv [] _ (fun b => eq_refl) y_body rep _
               y_res H) as [d [D K]].
   exists d. split; [exact D|].
-  destruct (K _ (or_introl eq_refl)) as (cid & data & ut & h & a & c & H1 & H2 & H3 & _ & _ & _ & H4 & _).
+  destruct (K _ (or_introl eq_refl)) as (cid & data & ut & h & a & c & H1 & H2 & Hb & H3 & _ & _ & _ & H4 & _).
   exists cid, data, ut, h, a. auto.
 Qed.
+
+(* ------------------------------------------------------------------ *)
+(* the same invocation — the same signed bytes — travelling under a RAW-codec CID (0x55 over the
+   same multihash; the CAR reader accepts it), named by the execute list under that CID: the
+   hypotheses of C11_bytes_relabelled_no_fields / C08_bytes_relabelled_runs_nothing hold, the body
+   decodes, and the invocation is answered InvocationCapabilityError with no handler call — while
+   the well-formed body above (y_served) runs the handler. *)
+Definition y_raw_cid : bstr :=
+  cidv1 85 (mh_encode 18 (match y_digest 18 32 x_bytes with Some d => d | None => [] end)).
+Definition y_msg_raw : amsg := mkMsg (Some [y_raw_cid]) None.
+Definition y_root_raw : bstr := y_cid (message_bytes y_msg_raw).
+Definition y_blocks_raw : list (bstr * bstr) := request_blocks [(y_raw_cid, x_inv)] y_root_raw y_msg_raw.
+Definition y_body_raw : bstr := car_encode [y_root_raw] y_blocks_raw.
+
+Example y_raw_hyps :
+  exists d, decode_message y_digest (fun _ => None) y_body_raw = Some d /\
+    blocks_of d = [] ++ (y_raw_cid, token_bytes x_inv) :: [(y_root_raw, message_bytes y_msg_raw)] /\
+    invocations_bytes (d_msg d) = [y_raw_cid] /\
+    cid_of y_digest (token_bytes x_inv) <> Some y_raw_cid /\
+    cid_of y_digest (token_bytes x_inv) = Some y_inv_cid /\
+    token_decode_typed (message_bytes y_msg_raw) = None.
+Proof.
+  destruct (decode_message y_digest (fun _ => None) y_body_raw) as [d|] eqn:D; [|vm_compute in D; discriminate D].
+  exists d. split; [reflexivity|].
+  assert (E : Some d = decode_message y_digest (fun _ => None) y_body_raw) by (symmetry; exact D).
+  vm_compute in E. inversion E; subst d. clear E D.
+  repeat split; try (vm_compute; reflexivity). vm_compute. discriminate.
+Qed.
+
+Example y_raw_served :
+  y_serve y_body_raw =
+  SDone (ExecOk [(lid y_raw_cid, mkRcpt (lid y_raw_cid) (s_id y_srv) (RErr e_capability) no_fx)] []).
+Proof. vm_compute. reflexivity. Qed.
+
+(* the theorems apply to it: the relabelled block is the empty token in the server's store, the
+   request is served as if the block carried the (non-UCAN) bytes of the message root, and the
+   receipt is the one C08_bytes_relabelled_runs_nothing names *)
+Example y_raw_applies :
+  exists d, decode_message y_digest (fun _ => None) y_body_raw = Some d /\
+    U_of y_digest [] (view_block lid x_keys x_valid x_alg) (blocks_of d) (lid y_raw_cid) = Some empty_token /\
+    y_serve y_body_raw =
+      SDone (execute (U_of y_digest [] (view_block lid x_keys x_valid x_alg)
+                        ((y_raw_cid, message_bytes y_msg_raw) :: [(y_root_raw, message_bytes y_msg_raw)]))
+                     8 y_srv (vis_of (blocks_of d)) (exec_of (d_msg d))) /\
+    (forall vis, run (U_of y_digest [] (view_block lid x_keys x_valid x_alg) (blocks_of d)) 8 y_srv (mkDlg (lid y_raw_cid) vis)
+                 = Some (mkRcpt (lid y_raw_cid) (s_id y_srv) (RErr e_capability) no_fx, [])) /\
+    calls_of (y_serve y_body_raw) = [].
+Proof.
+  destruct y_raw_hyps as (d & D & EB & EI & NE & _ & TD). exists d. split; [exact D|].
+  destruct (serve_bytes_relabelled_no_fields y_digest (fun _ => None) x_keys x_valid x_alg 8 y_srv [] _ (fun b => eq_refl)
+              y_body_raw d [] y_raw_cid (token_bytes x_inv) _ D EB NE) as [_ [HU HS]].
+  split; [apply HU; intros []|]. split; [exact (HS _ TD)|].
+  assert (I : In (y_raw_cid, token_bytes x_inv) (blocks_of d)) by (rewrite EB; left; reflexivity).
+  destruct (serve_bytes_relabelled_runs_nothing y_digest (fun _ => None) x_keys x_valid x_alg 8 y_srv [] _ (fun b => eq_refl)
+              y_body_raw d y_raw_cid (token_bytes x_inv) D I NE) as [R _].
+  split; [exact R|]. rewrite y_raw_served. reflexivity.
+Qed.
+
+(* the encoder model files the token under the CID the well-formed request uses *)
+Example y_enc : enc_toks y_digest [x_inv] = Some y_toks.
+Proof. vm_compute. reflexivity. Qed.
